@@ -164,6 +164,18 @@ func suiteC05(c *Ctx) []Suite {
 			var out []Case
 			for i := 0; i < c.N(2500); i++ {
 				item := smlTemplate(c.R, 0.1, false)
+				depth := 0
+				if i%25 == 7 && item.Kind != "E" {
+					// the literals stand deep inside nested lists, with siblings on the way down
+					depth = pick(c.R, 3, 40, 63, 64, 65, 66, 100, 127, 128, 129, 200)
+					for d := 0; d < depth; d++ {
+						w := &Node{Kind: "L", Slots: []Slot{{Child: item}}}
+						if d%16 == 5 {
+							w.Slots = append(w.Slots, Slot{Child: &Node{Kind: "U", W: 1, Slots: []Slot{{U: uint64(d)}}}})
+						}
+						item = w
+					}
+				}
 				m := genSMLMsg(c.R, item)
 				toks := msgTokens(c.R, m, true)
 				lay := plainLayout(c.R)
@@ -171,6 +183,12 @@ func suiteC05(c *Ctx) []Suite {
 				lay.Comments = c.R.Intn(3) == 0 // comments (with any bytes, CR included) never add or change a value
 				text, _ := lay.render(toks)
 				cs := Case{Op: smlOp(text), Decisive: true, Nontrivial: true, Tags: itemTags("", item)}.fields("n str vars err")
+				if depth > 0 {
+					cs.Tags = append(cs.Tags, fmt.Sprintf("literals-at-depth:%d", depth))
+				}
+				if depth > 130 {
+					cs.Op, cs.Detail = "", fmt.Sprintf("literals at depth %d (judged on the real code: the model's printer is cubic in the depth)", depth)
+				}
 				res := parseSML(text)
 				want, _ := implItem(item)
 				switch {
@@ -414,6 +432,16 @@ func suiteC06(c *Ctx) []Suite {
 					texts = append(texts, "S1F1 W "+strings.Repeat("<L ", d)+leaf+strings.Repeat(">", d)+".")
 				}
 			}
+			// every kind of lexing error at every place of a message, at the very end of the input
+			// and followed by more
+			for _, bad := range []string{`"oops`, `"`, "[1", "[", "[..", "[1..", "1x", "0xZ", "@", "$", "-", "+", ".5x", "'", "]", "1e", "..", "....", "\"a\rb\""} {
+				for _, place := range []string{"S1F1 W H->E %s .", "S1F1 W <A \"ok\"> %s .", "S1F1 W <A \"ok\"> %s", "S1F1 W <A \"ok\">%s", "S1F1 W <L <A %s> > .", "S1F1 W <L <A \"ok\"> %s",
+					"S1F1 W <A \"ok\">. %s", "%s", "S1F1 %s W .", "S1F1 W <A[2] %s", "S1F1 W <L[1] %s", "S1F1 W <U1 1 %s", "S1F1 W <L x %s"} {
+					for _, tail := range []string{"", "\n", " ", "\r\n//c"} {
+						texts = append(texts, fmt.Sprintf(place, bad)+tail)
+					}
+				}
+			}
 			results := runIsolated(texts)
 			var out []Case
 			for i, t := range texts {
@@ -521,10 +549,13 @@ func suiteC08(c *Ctx) []Suite {
 					if len(cand) > 0 {
 						toks = append([]STok{}, toks...)
 						k := cand[c.R.Intn(len(cand))]
-						toks[k] = STok{"1e999", 0, true}
+						// literals that some or no item types accept, in spellings whose letters may
+						// change case
+						wrong := []string{"1e999", "1e999", "0x10", "0b1", "0o7", "0xfe", "-0x1", "1e5", "99999999999999999999999", "0b102", "1.5e-3", "-1e999", "0x"}[c.R.Intn(13)]
+						toks[k] = STok{wrong, 0, true}
 						if len(cand) > 1 && c.R.Intn(3) == 0 {
 							// the same mistake twice: two diagnostics with the same text
-							toks[cand[c.R.Intn(len(cand))]] = STok{"1e999", 0, true}
+							toks[cand[c.R.Intn(len(cand))]] = STok{wrong, 0, true}
 						}
 						if c.R.Intn(3) == 0 {
 							toks[k] = STok{`"unclosed`, 0, false} // a string that is not closed on its line
@@ -872,6 +903,18 @@ func suiteC15(c *Ctx) []Suite {
 				if c.R.Intn(3) == 0 {
 					hdr = []string{"S1F1 W H->E Größe ", "S1F1 W H->E 名前テスト ", "S1F1\u00a0W\u00a0H->E\u00a0né\u3000", "S1F1 W H->E plain "}[c.R.Intn(4)]
 				} else {
+					// one time in three an earlier message with a mistake of its own stands first:
+					// what follows it is still read and reported
+					switch c.R.Intn(9) {
+					case 0:
+						lines = append(lines, "S2F2 W H->E", "<U1[2] 1>", ".")
+						wants = append(wants, want{2, 4})
+					case 1:
+						lines = append(lines, "S2F2 W", ".") // a reply that asks for a reply
+					case 2:
+						lines = append(lines, "S6F11 W H<-E first", "<L[1]", "  <I1 300>", "  <A[1] \"\">", ">", ".")
+						wants = append(wants, want{4, 5}, want{2, 3})
+					}
 					lines = append(lines, "S1F1 W H->E")
 				}
 				var build func(depth, indent int)
@@ -1056,6 +1099,7 @@ func suiteC19(c *Ctx) []Suite {
 				okAll := true
 				names := &nameGen{}
 				_ = names
+				var prev *MsgDesc
 				for j := 0; j < k; j++ {
 					// variable names and ellipses are reused across messages on purpose
 					rr := rand.New(rand.NewSource(int64(i*7 + j%2)))
@@ -1064,8 +1108,34 @@ func suiteC19(c *Ctx) []Suite {
 						item = &Node{Kind: "E"} // a header-only message
 					}
 					m := genSMLMsg(c.R, item)
+					// one time in four the message belongs to the one before it: its reply (next
+					// function code, no wait bit) or a repetition, written without a direction
+					related := j > 0 && prev != nil && c.R.Intn(4) == 0
+					if related {
+						m.S, m.F, m.Dir = prev.S, prev.F, "H<->E"
+						if prev.F%2 == 1 && prev.F < 255 && c.R.Intn(4) > 0 {
+							m.F, m.W = prev.F+1, 0
+						}
+						if c.R.Intn(2) == 0 {
+							m.Name = prev.Name
+						}
+					}
+					prev = m
 					var t string
-					if c.R.Intn(2) == 0 {
+					if related {
+						var toks []STok
+						for q, tk := range msgTokens(c.R, m, true) {
+							if q <= 2 && tk.Text == "H<->E" {
+								continue
+							}
+							toks = append(toks, tk)
+						}
+						t, _ = randomLayout(c.R).render(toks)
+						t = strings.TrimRight(t, " \t\r\n")
+						if strings.Contains(t[strings.LastIndex(t, "\n")+1:], "//") {
+							t += "\n"
+						}
+					} else if c.R.Intn(2) == 0 {
 						msg, p := buildMsg(m)
 						if p {
 							okAll = false
